@@ -15,6 +15,8 @@ ALSO = {'C07-2': ['C14'], 'C12-1': ['C14'], 'C15-2': ['C05', 'C07'], 'C20-1': ['
         'C18-1': ['C14'], 'C20-2': ['C07', 'C08'], 'C08-4': ['C20'], 'C09-3': ['C10'], 'C10-4': ['C09'], 'C17-4': ['C16'], 'C04-3': ['C14', 'C07'],
         'C15-4': ['C10'], 'C20-4': ['C08'], 'C06-4': ['C12'], 'C02-4': ['C05'], 'C12-4': ['C13'], 'C08-3': ['C14'], 'C07-3': ['C04'], 'C18-3': ['C14'],
         'C08-6': ['C06'], 'C12-6': ['C06'], 'C02-5': ['C16', 'C08'], 'C02-6': ['C16'], 'C05-5': ['C16'], 'C13-6': ['C19'], 'C16-6': ['C17'], 'C07-5': ['C16'],
+        'C01-8': ['C03'], 'C04-7': ['C14'], 'C18-8': ['C10'], 'C09-7': ['C10'], 'C20-7': ['C10', 'C04'], 'C16-7': ['C10'], 'C10-8': ['C01'],
+        'C02-7': ['C05'], 'C05-7': ['C02'], 'C08-7': ['C14'], 'C14-8': ['C08'], 'C07-8': ['C13'], 'C19-8': ['C13'], 'C12-7': ['C19'],
         'C17-6': ['C15'], 'C01-6': ['C17'], 'C04-5': ['C17'], 'C09-5': ['C08'], 'C08-5': ['C16'], 'C10-6': ['C09'], 'C15-5': ['C07'], 'C07-6': ['C14'], 'C14-6': ['C08']}
 args = sys.argv[1:]
 jobs = 4
